@@ -94,6 +94,12 @@ check("C06", "net-sim", "exploration",
       "Signers are light actors built on the repository's SignerBuilder / ProtocolInitializer (the real signer node's epoch service is not in the loop); permuted groups never span a tick, because arrival relative to the rotation of the registration round matters by design.",
       "DESIGN.md section 4 C06")
 
+check("C20", "net-sim", "exploration",
+      "deterministic simulation with real signer nodes: the repository's signer state machine, runner, certifier, single signer, epoch service and SQLite repositories (real KES signing, seeded key material through hook H4) tick under a seeded scheduler against the real aggregator over a simulated link (request lost, acknowledgement lost, duplicated, aggregator unreachable, stale epoch settings), with per-node chain-view lag and restarts of signers and aggregator; exactly-once / right-key / acceptance oracle over the recorded wire history, bounded liveness after faults stop",
+      "Every request of every signer is recorded on the wire together with what the aggregator answered and what the signer was told. Per (signer, signed entity, beacon): at most one acknowledged publication, un-acknowledged retries carry the identical signature; every published signature verifies, under an independent statement of the epoch offsets, with the key that signer registered (as acknowledged by the aggregator) for the epoch whose stake distribution is in force; it is accepted by the real aggregator whenever the matching round is open; no publication without an eligible registration; after three fault-free quiescence phases every registered signer is back in ReadyToSign.",
+      "CardanoTransactions / CardanoBlocksTransactions signing is not exercised (dumb block scanner); retry / delay decorators of the signature publisher are not wired (retries are the scheduler's); an aggregator that has just been restarted and has not cycled yet may reject (transient, counted).",
+      "DESIGN.md section 4 C20, section 6 H4")
+
 def manifest():
     checks = []
     for pid in sorted(CHECKS):
@@ -132,13 +138,13 @@ def manifest():
             "guard": "cfg mithril_verif (statement hook in mithril-persistence, global_allocator opt-out in aggregator/signer libs) and cfg mithril_verif_shuttle (resource pool sync primitives -> shuttle::sync)",
             "enable": "rustflags in each engine's .cargo/config.toml: --cfg mithril_verif (sim-pool: --cfg mithril_verif_shuttle, with the shuttle dependency supplied by the shadow manifest sim-pool/shadow-resource-pool)",
             "baseline_off_cmd": "cd /repo && cargo nextest run --workspace --no-fail-fast --tool-config-file pb:/w/lib/nextest.toml --profile pb --test-threads 8 --offline",
-            "source_commits": ["118e19bdb", "f0a7adfa4", "02840e8c9"],
+            "source_commits": ["118e19bdb", "f0a7adfa4", "02840e8c9", "c978da17a"],
             "add_only": False,
         },
         "engines": engines,
         "checks": checks,
         "not_applicable": not_applicable,
-        "notes": "Hooks: H1 rewrites one `use` line in internal/mithril-resource-pool/src/resource_pool.rs (cfg-switched import); H3 rewrites the four `#[global_allocator]` attribute lines of mithril-aggregator/src/lib.rs and mithril-signer/src/lib.rs into `#[cfg_attr(not(mithril_verif), global_allocator)]`; H2 only adds code. Hence add_only=false. With both cfgs off the crates compile to what they compiled to before. Unguarded fix commits in /repo: 973c7af0c (C18), 1a94af927 (C12), 4f5ce2b29 (C16), c196a0569 and 0b86c82cc (C02); see known-findings.json and DESIGN.md.",
+        "notes": "Hooks: H1 rewrites one `use` line in internal/mithril-resource-pool/src/resource_pool.rs (cfg-switched import); H3 rewrites the four `#[global_allocator]` attribute lines of mithril-aggregator/src/lib.rs and mithril-signer/src/lib.rs into `#[cfg_attr(not(mithril_verif), global_allocator)]`; H2 only adds code; H4 (mithril-signer: seeded generator for the per-epoch key material instead of OsRng under cfg mithril_verif) puts one existing `let` line behind `#[cfg(not(mithril_verif))]` and adds code. Hence add_only=false. With both cfgs off the crates compile to what they compiled to before. Unguarded fix commits in /repo: 973c7af0c (C18), 1a94af927 (C12), 4f5ce2b29 (C16), c196a0569 and 0b86c82cc (C02); see known-findings.json and DESIGN.md.",
     }
 
 if __name__ == "__main__":
